@@ -2,5 +2,7 @@
    bool, option, unit, list, prod, sumbool, sumor map to OCaml's; N/positive/nat stay Coq data). *)
 From Coq Require Import Extraction ExtrOcamlBasic.
 From FatVerif Require Import Model.Base Model.Time.
+From FatVerif Require Import Model.Bpb Spec.BpbSpec.
 Separate Extraction
-  Model.Base Model.Time.
+  Model.Base Model.Time
+  Model.Bpb Spec.BpbSpec.
